@@ -263,7 +263,10 @@ def judgePoll (rounds : List (List Msg × Bool)) (budget : Option Nat) (status :
   | .ok st =>
     match statusOk status out.length budget (!st.cut) "err:source" with
     | some e => s!"bad {e}"
-    | none => "ok"
+    | none =>
+      -- a valid changelog whenever every snapshot is one (what undoing newest-first buys; C15's notion)
+      if rounds.all (fun r => validLogB (recs r.1)) && !validLogB (recs out) then "bad invalid-changelog(C15)"
+      else "ok"
 
 /-- property oracle on what the implementation printed -/
 def judge (toks : List String) (out : List String) : String :=
